@@ -88,6 +88,17 @@ CLAIMED = {
              "repaired (fix: commit d2484cb: repeated allowed denom counted twice).",
         technique="Lean 4 proof (integer rounding inequalities, guard/effect case analysis) + regenerated facts + differential correspondence",
         ref="§7 C18"),
+    "C19": dict(
+        text="Lean 4 theorems over an executable model of the per-block EVM index bookkeeping (TxConfig, AddLog, updateBlockBloom and its "
+             "four call sites, BlockTxIndex, EndBlock bloom): for every block composition of successful / reverted / failing Ethereum txs "
+             "and FunToken Cosmos operations the log indices are 0,1,2,… in emission order, executed eth txs carry 0,1,2,…, an eth log "
+             "carries its tx's index, reverted/failing txs contribute none, and the block bloom folds exactly the emitted logs "
+             "(invariant by induction over the block). The argument each call site passes to updateBlockBloom is regenerated from the "
+             "source on every run and drives both the executable model and a fact theorem. Correspondence on the real keeper.",
+        note="Trusted: Lean kernel; harness; extractor. The defect expected in the design was confirmed on the real code, proved as "
+             "C19_counterexample_old_sites and repaired (fix: commit 6eaac48).",
+        technique="Lean 4 proof (block invariant by induction) + regenerated call-site facts (translator) + differential correspondence",
+        ref="§7 C19"),
 }
 
 PENDING_REASON = "not claimed yet: model/proofs for this property are still being built (see DESIGN.md §9 build order)"
